@@ -29,6 +29,39 @@ def mask_of(d):
     return None
 
 
+def exact_reads(chk, prog, rid):
+    """every read of the blocking frame decoder is a read_exact whose failure is an error: a frame is complete or it is not delivered"""
+    # R3 reads
+    bad = []
+    good = 0
+    for fn in ("humphrey_ws::frame::Frame::from_stream", DEC):
+        fb = prog.bodies.get(fn)
+        chk.floor(fn.split("::")[-1], 1 if fb else 0, 1)
+        if not fb:
+            continue
+        for blk, t in fb.calls():
+            if core.call_matches(t, r"(^|::)std::io::Read::(read|read_to_end|read_vectored|read_buf)$"):
+                bad.append((fn, blk))
+            if core.call_matches(t, r"std::io::Read::read_exact$"):
+                good += 1
+                # mapped to ReadError and propagated
+                d = describe(prog, fb, {"k": "copy", "pl": t["dest"]})
+                users = [c for blk2, c in fb.calls_to(r"Result::<T, E>::map_err$") if core.op_local(c["args"][0]) == t["dest"]["l"]]
+                handled = bool(users)
+                if not handled:
+                    # `match stream.read_exact(..) { Ok(()) => .., Err(_) => return Err(..) }`: the Err edge only leads to error returns
+                    from .c01 import some_edge_of as _soe
+                    oks_ = core.ok_return_blocks(fb, "Ok")
+                    errs_ = _soe(prog, fb, blk, "Err")
+                    later = [b2 for b2, t2 in fb.calls() if core.call_matches(t2, r"Read::read_exact$") and b2 != blk]
+                    from .. import absreach as _ar
+                    handled = bool(errs_) and all(not any(x in _ar.feasible_from(fb, [tgt], prog) for x in oks_ + later) for (s_, tgt) in errs_)
+                chk.ob(rid, fn, "read_exact failure is mapped (truncation -> error)", handled, "a read error is ignored", where=fb.where(blk))
+    for fn, blk in bad:
+        chk.ob(rid, fn, "bare read in the blocking decoder", False, "a partial read would be taken for a complete field", where=prog.bodies[fn].where(blk))
+    chk.floor("read_exact sites in the frame decoder", good, 2)
+
+
 def run(chk):
     prog = chk.use(core.load("A", fresh=(chk.tier == "thorough")))
     chk.explanation = (
@@ -158,35 +191,7 @@ def run(chk):
                f"marker 126 handled as {facts.get(126)}")
         chk.ob("R2.decoder", DEC, "marker 127 -> u64::from_be_bytes of 8 bytes", facts.get(127, ("",))[0] == "u64" and facts[127][1] == "from_be_bytes" and "; 8]" in facts[127][2],
                f"marker 127 handled as {facts.get(127)}")
-        # R3 reads
-        bad = []
-        good = 0
-        for fn in ("humphrey_ws::frame::Frame::from_stream", DEC):
-            fb = prog.bodies.get(fn)
-            chk.floor(fn.split("::")[-1], 1 if fb else 0, 1)
-            if not fb:
-                continue
-            for blk, t in fb.calls():
-                if core.call_matches(t, r"(^|::)std::io::Read::(read|read_to_end|read_vectored|read_buf)$"):
-                    bad.append((fn, blk))
-                if core.call_matches(t, r"std::io::Read::read_exact$"):
-                    good += 1
-                    # mapped to ReadError and propagated
-                    d = describe(prog, fb, {"k": "copy", "pl": t["dest"]})
-                    users = [c for blk2, c in fb.calls_to(r"Result::<T, E>::map_err$") if core.op_local(c["args"][0]) == t["dest"]["l"]]
-                    handled = bool(users)
-                    if not handled:
-                        # `match stream.read_exact(..) { Ok(()) => .., Err(_) => return Err(..) }`: the Err edge only leads to error returns
-                        from .c01 import some_edge_of as _soe
-                        oks_ = core.ok_return_blocks(fb, "Ok")
-                        errs_ = _soe(prog, fb, blk, "Err")
-                        later = [b2 for b2, t2 in fb.calls() if core.call_matches(t2, r"Read::read_exact$") and b2 != blk]
-                        from .. import absreach as _ar
-                        handled = bool(errs_) and all(not any(x in _ar.feasible_from(fb, [tgt], prog) for x in oks_ + later) for (s_, tgt) in errs_)
-                    chk.ob("R3.reads", fn, "read_exact failure is mapped (truncation -> error)", handled, "a read error is ignored", where=fb.where(blk))
-        for fn, blk in bad:
-            chk.ob("R3.reads", fn, "bare read in the blocking decoder", False, "a partial read would be taken for a complete field", where=prog.bodies[fn].where(blk))
-        chk.floor("read_exact sites in the frame decoder", good, 2)
+        exact_reads(chk, prog, "R3.reads")
         # unmasking: key[i % 4]
         # (closure passed to for_each, or a `for` loop in the decoder itself)
         cl = [c for c in [b] + prog.closures_of(DEC) if c is not None and any(blk["term"] and blk["term"]["k"] == "assert" and blk["term"]["akind"] == "rem_zero" for blk in c.blocks)]
